@@ -315,10 +315,9 @@ theorem good_handleEqual {s : State} (h : Inv s) (pid count : Nat) (eqv : State 
         split
         · exact g
         · rename_i first rest hrev
-          have hl : LiveL s1 (first :: rest) := by rw [← hrev]; exact liveL_reverse (l vs rfl)
           refine g.trans (goodT_push_bump g.inv pid ?_)
           split
-          · exact (liveL_cons.mp hl).1
+          · exact live_ok
           · exact live_nil
 
 end QM.Heap
